@@ -111,8 +111,9 @@ Proof. exact no_wait_all_connected. Qed.
 
 (** Non-vacuity.  Ring of three with steps 10 / 1 / 3 (sum 14): delays 6+5 on one link, 3 on another, 0 on
     the third — no single link covers its consumer's step, the potential is not constant. *)
-(** The same without a potential, for a plain RING of time components (every component has exactly one input, fed by
-    its predecessor on the ring; [pos] numbers the components along the data flow, the listing order is arbitrary): if
+(** The same without a potential, for a plain RING (every component has exactly one input, fed by its predecessor on
+    the ring; [pos] numbers the components along the data flow starting at a time-stepped one, the other members may be
+    time-stepped or pull-based, the listing order is arbitrary): if
     the non-negative fixed delays on the ring's links - wherever they sit, however they are split over the links and over
     several adapters of one link - sum to at least the sum of the components' largest steps, no run reports a circular
     coupling.  (The potential is constructed: prefix sums of  largest step - delay  along the ring.) *)
@@ -190,7 +191,31 @@ Proof.
   - intros c H. exact H.
   - intros c c' _ _ H. exact H.
   - intros c H. simpl in H.
-    destruct c as [|[|[|c]]]; [| | |Lia.lia]; (split; [reflexivity|]); eexists; (split; [reflexivity|]);
+    destruct c as [|[|[|c]]]; [| | |Lia.lia]; (split; [intros _; reflexivity|]); eexists; (split; [reflexivity|]);
+      (split; [simpl; Lia.lia|]); (split; reflexivity).
+Qed.
+
+(** a ring through a pull-based component: A (step 3) -> P (pull-based) -> C (step 2) -> DelayFixed 5 -> A *)
+Definition ex_ring_pull : composition :=
+  [ mkC (KTime 0 [3] false) 1 [ mkIn (2, 0)%nat [APass; AFixed 5] ];
+    mkC KPull 1 [ mkIn (0, 0)%nat [] ];
+    mkC (KTime 0 [2] false) 1 [ mkIn (1, 0)%nat [] ] ].
+
+Example C04_ring_pull_nonvacuous :
+  wf ex_ring_pull /\
+  ring ex_ring_pull (fun c => c) (fun c => match c with 0%nat => 5 | _ => 0 end) /\
+  zsum (S_of ex_ring_pull) (seq 0 (length ex_ring_pull))
+  <= zsum (fun c => match c with 0%nat => 5 | _ => 0 end) (seq 0 (length ex_ring_pull)) /\
+  (let '(o, st, _) := run 200 ex_ring_pull 12 in o = OOk /\ final_times ex_ring_pull st = [12; 0; 12]).
+Proof.
+  split; [apply wf_b_sound; vm_compute; reflexivity|].
+  split; [|split; [vm_compute; discriminate|vm_compute; split; reflexivity]].
+  split.
+  - intros c H. exact H.
+  - intros c c' _ _ H. exact H.
+  - intros c H. simpl in H.
+    destruct c as [|[|[|c]]]; [| | |Lia.lia];
+      (split; [intros E; try discriminate E; reflexivity|]); eexists; (split; [reflexivity|]);
       (split; [simpl; Lia.lia|]); (split; reflexivity).
 Qed.
 
